@@ -89,6 +89,8 @@ def reference_patterns() -> List[tuple]:
     pats += [(k["ref"], rx.REF_FLAGS) for k in ls.KINDS.values()]
     for rs in list(ACCEPT_REGIONS.values()) + list(OVER_REGIONS.values()):
         pats += [(r.pattern, r.flags) for r in rs]
+    from . import c06_lexer
+    pats += c06_lexer.reference_patterns()
     pats.append((unicode_identifier_ref([chr(i) for i in range(128)] + list(UNICODE_EXTRAS)), rx.REF_FLAGS))
     return pats
 
@@ -134,6 +136,8 @@ def lexer_obligations(sess: rx.Session, tier: str) -> List[rx.Obligation]:
         regions = OVER_REGIONS.get(kind, []) + OVER_REGIONS["*"]
         obs.append(rx.ob_overaccept(sess, f"overaccept:{kind}", "overaccept(informational)", N, kind, k["ref"], k["delims"],
                                     regions, max_rounds=rounds))
+    from . import c06_lexer
+    obs += c06_lexer.blank_before_obligations(sess, tier)
     obs.sort(key=lambda o: -o.N)   # long bounds first: they are the expensive queries
     return obs
 
@@ -327,6 +331,30 @@ def v_duration_product(sign: int, mask: int, i0: int, i1: int, i2: int, i3: int,
     pool = ("0", "12")
     idx = (i0, i1, i2, i3, i4, i5)
     return _duration_ok(sign, [pool[idx[i]] if (mask >> i) & 1 else None for i in range(6)], 0)
+
+
+DUR_FRAC_PATTERNS = ("123456789012", "500000000000", "000000000001", "999999999999", "000000500000")
+DUR_FRAC_WHOLE = ("0", "1", "59", "007")
+
+
+def v_duration_fraction(sign: int, nd: int, pat: int, whole: int, others: int) -> bool:
+    """seconds with 1..12 fraction digits (timedelta resolves microseconds: beyond 6 digits the value rounds, it does
+    not wrap or scale), four whole-second spellings, alone and with all other fields present."""
+    pattern = DUR_FRAC_PATTERNS[0]
+    for j in range(len(DUR_FRAC_PATTERNS)):
+        if pat == j:
+            pattern = DUR_FRAC_PATTERNS[j]
+    w = DUR_FRAC_WHOLE[0]
+    for j in range(len(DUR_FRAC_WHOLE)):
+        if whole == j:
+            w = DUR_FRAC_WHOLE[j]
+    frac = ""
+    for j in range(12):
+        if j < nd:
+            frac += pattern[j]
+    fields = [DUR_DISTINCT[i] if others else None for i in range(6)]
+    fields[5] = w + "." + frac
+    return _duration_ok(sign, fields, 0)
 
 
 # ---- calendar values
@@ -577,6 +605,11 @@ def value_items(tier: str) -> List[Item]:
                            f"v_duration_field({sign}, {fld}, x0, x1)", family="value:duration",
                            describe=f"duration field {'YMDHMS'[fld]} over {DUR_VALUES + (DUR_SECS_EXTRA if fld == 5 else ())}, alone and "
                                     "with all other fields present"))
+        it.append(Item(f"duration_fraction_s{sign}", "x0: int, x1: int, x2: int, x3: int",
+                       f"1 <= x0 <= 12 and 0 <= x1 < {len(DUR_FRAC_PATTERNS)} and 0 <= x2 < {len(DUR_FRAC_WHOLE)} and 0 <= x3 <= 1",
+                       f"v_duration_fraction({sign}, x0, x1, x2, x3)", family="value:duration",
+                       describe=f"duration seconds with 1..12 fraction digits from the patterns {DUR_FRAC_PATTERNS}, whole part over "
+                                f"{DUR_FRAC_WHOLE}, alone and with all other fields present (value within one microsecond)"))
     if not quick:
         for sign in range(3):
             for mask in range(1, 64):
@@ -725,8 +758,9 @@ def repeat_bounds(run: Run, sess: rx.Session, progress: bool) -> None:
     refs["ODATA_IDENTIFIER"] = (ls.identifier_capped(10 ** 6), rx.REF_FLAGS)
     rx.check_repeat_caps(run, sess, nmax, kinds, {"ODATA_IDENTIFIER": [IDENT_CAP]}, refs)
     caps = [lp["max"] for lp in sess.engines[nmax].nfa.loops if lp["rule"] == "ODATA_IDENTIFIER" and lp["max"] == IDENT_CAP]
+    from . import c06_lexer
+    c06_lexer.identifier_length_boundary(run, sess, bool(caps))
     if not caps:
-        run.notes.append("repeat-bounds: the identifier rule has no {m,127} repeat; the scaled obligation does not apply")
         return
     spec2 = rx.scaled_spec(sess.spec, "ODATA_IDENTIFIER", IDENT_CAP, SCALE)
     if spec2 is None:
